@@ -1,7 +1,7 @@
 """C10 - tables and expressions are immutable values.
 
 A genuinely stateful exploration.  The world holds a pool of *live* objects: the source
-table, derived tables, and expression objects E0..E6 built once (an aggregate, a window
+table, derived tables, and expression objects E0..E8 built once (an aggregate, a window
 function, count(), an element-wise expression, a case expression, an ordering marker,
 an aggregate with explicit partition_by).  Events apply a verb with pooled expressions to
 a pooled table (the result joins the pool), change the grouping state, export, build the
@@ -50,6 +50,8 @@ EXPRS = [
     ["case", [[["gt", src("x"), ["lit", 2]], src("x")]], ["lit", 0]],  # E4
     ["nulls_last", src("x")],  # E5 ordering marker on top
     ["max", src("x"), {"partition_by": [src("g")]}],  # E6 explicit partition
+    ["shift", src("x"), 1, None],  # E7 order-dependent window function without arrange= (takes the table's arrange order)
+    ["row_number"],  # E8 the same without arguments
 ]
 
 
@@ -74,6 +76,7 @@ VERBS = [
     ["mutate", [["r", ["mul", P(0), ["lit", 2]]]]],  # the pooled aggregate nested in a new expression
     ["arrange", [["desc", P(3)], src("k")]],
     ["alias"],
+    ["mutate", [["v", P(7)], ["n", P(8)]]],  # the compiler supplies partition / order for these from the table state
 ]
 OBS = ["export", "build_query", "str"]
 
